@@ -138,9 +138,15 @@ def pair_case(draw):
     if kind == "temp":
         vals = draw(st.lists(temps, min_size=1, max_size=3))
     elif kind == "sum":
-        a = draw(levels)
-        d = draw(st.floats(0.1, 200) | st.sampled_from([0.1, 1.0, 3.0, 4.0]))
-        vals = [a, a - d] if draw(st.booleans()) or PAIRS[i][2] == "-" else [a - d, a]
+        n = draw(st.sampled_from([1, 1, 2, 3]))
+        av, bv = [], []
+        for _ in range(n):
+            a = draw(levels)
+            d = draw(st.floats(0.1, 200) | st.sampled_from([0.1, 1.0, 3.0, 4.0]))
+            x, y = (a, a - d) if draw(st.booleans()) or PAIRS[i][2] == "-" else (a - d, a)
+            av.append(x)
+            bv.append(y)
+        vals = [av[0], bv[0]] if n == 1 else [av, bv]       # lists = array-valued levels
     else:
         vals = draw(st.lists(levels, min_size=1, max_size=3))
     return {"pair": list(PAIRS[i]), "vals": vals}
@@ -160,6 +166,7 @@ def exhaustive(tier, shard, nshards):
             for a, b in ((1.0, 2.0), (87.0, 83.0), (0.0, -10.0), (30.0, 29.5), (-120.0, -121.0)):
                 if p[2] == "+" or a > b:
                     yield {"pair": list(p), "vals": [a, b]}
+            yield {"pair": list(p), "vals": [[60.0, 40.5, 10.0], [40.0, 20.0, 3.0]]}
         else:
             yield {"pair": list(p), "vals": LADDER_DB}
 
@@ -219,21 +226,28 @@ def _check(case, v):
     if kind == "sum":
         a, b = case["vals"]
         op = w
-        da, db = level_to_db(a, u), level_to_db(b, u)
-        if op == "-" and not da - db >= 0.0999:
-            return v.discard("sub-needs-a>b")
-        p = 10 ** (da / 10) + 10 ** (db / 10) if op == "+" else 10 ** (da / 10) - 10 ** (db / 10)
-        exp = db_to_level(10 * math.log10(p), u)
+        al, bl = (a, b) if isinstance(a, list) else ([a], [b])
+        exp = []
+        for x, y in zip(al, bl):
+            da, db = level_to_db(x, u), level_to_db(y, u)
+            if op == "-" and not da - db >= 0.0999:
+                return v.discard("sub-needs-a>b")
+            p = 10 ** (da / 10) + 10 ** (db / 10) if op == "+" else 10 ** (da / 10) - 10 ** (db / 10)
+            exp.append(db_to_level(10 * math.log10(p), u))
         try:
             r = Quantity(a, u) + Quantity(b, u) if op == "+" else Quantity(a, u) - Quantity(b, u)
         except Exception as e:
             return v.fail("sum-raised", f"Quantity({a!r},{u!r}) {op} Quantity({b!r},{u!r}) raised {e!r}")
-        if not close(float(r.value()), exp, 1e-8, 1e-8):
+        got = np.atleast_1d(np.asarray(r.value(), dtype=float)).tolist()
+        if len(got) != len(exp) or (isinstance(a, list)) != isinstance(r.value(), np.ndarray) or \
+                not all(close(g, e, 1e-8, 1e-8) for g, e in zip(got, exp)):
             return v.fail("sum-value", f"Quantity({a!r},{u!r}) {op} Quantity({b!r},{u!r}) = {r.value()!r} {r.units()}, "
                                        f"expected {exp!r} {u}")
         if r.units() != u:
             return v.fail("sum-units", f"result units {r.units()!r} != {u!r}")
         v.nt(True)
+        if isinstance(a, list):
+            v.label("sum_array")
         return
     for lv in case["vals"]:
         # lv is a level in dB; derive the input x in unit u and the expected output in unit w
